@@ -346,6 +346,43 @@ def literal_probe(mod, pid, impl, known, max_ops=None):
     return fails, n + (m_ if fs is not None else 0)
 
 
+def source_env_vars():
+    """environment variables the package reads by literal name -> candidate values (string literals of the same function
+    plus common switch values)"""
+    import ast
+    repo = os.environ.get("VERIF_REPO", "/repo")
+    out = {}
+    pkg = os.path.join(repo, "btc_hd_wallet")
+    for fn in sorted(os.listdir(pkg)) if os.path.isdir(pkg) else []:
+        if not fn.endswith(".py"):
+            continue
+        try:
+            tree = ast.parse(open(os.path.join(pkg, fn), encoding="utf-8").read())
+        except Exception:
+            continue
+        scopes = [n for n in ast.walk(tree) if isinstance(n, (ast.FunctionDef, ast.Module))]
+        for sc in scopes:
+            names = []
+            for n in ast.walk(sc):
+                if isinstance(n, ast.Call) and ast.unparse(n.func) in ("os.environ.get", "os.getenv", "environ.get", "getenv") \
+                        and n.args and isinstance(n.args[0], ast.Constant) and isinstance(n.args[0].value, str):
+                    names.append(n.args[0].value)
+                if isinstance(n, ast.Subscript) and ast.unparse(n.value) in ("os.environ", "environ") and \
+                        isinstance(n.slice, ast.Constant) and isinstance(n.slice.value, str):
+                    names.append(n.slice.value)
+            if names and not isinstance(sc, ast.Module):
+                lits = [c.value for c in ast.walk(sc) if isinstance(c, ast.Constant) and isinstance(c.value, str)
+                        and 0 < len(c.value) <= 24 and c.value not in names and "\n" not in c.value]
+            else:
+                lits = []
+            for nm in names:
+                vals = out.setdefault(nm, [])
+                for v in lits + ["1", "true", "testnet", "0", "yes"]:
+                    if v not in vals:
+                        vals.append(v)
+    return out
+
+
 def load_known(pid):
     p = os.path.join(VERIF, "known_findings.json")
     if not os.path.exists(p):
@@ -408,6 +445,8 @@ def decide(pid, tier, seed, replay, t0):
         tr_status.update(translate_obj.main())
         import translate_obj2
         tr_status.update(translate_obj2.main())
+        import translate_obj3
+        tr_status.update(translate_obj3.main())
         mod = importlib.import_module("props." + pid.lower())
         prop_modules = [m for m in mod.LEAN_MODULES
                         if os.path.exists(os.path.join(LEAN, m.replace(".", "/") + ".lean"))]
@@ -529,44 +568,73 @@ def decide(pid, tier, seed, replay, t0):
             else:
                 failures.append((l, msg))
     # ---- interpreter modes: the same operations in a child interpreter that strips `assert` (python -O) must give the
-    # same answers (a check that only exists as an assertion is not a check); rejections are sampled first
+    # same answers (a check that only exists as an assertion is not a check); rejections are sampled first.  The
+    # property's oracle is evaluated on the child's answers WITH ITS FOLLOW-UP OPERATIONS (round trips, re-imports)
+    # redirected to the child as well, so that a defect that only shows in the second step under -O is seen.
     mode_diffs = []
+
+    def explore_child(flags, env, label, pick_, budget_s):
+        """run the picked lines in a child interpreter; oracle failures there are violations"""
+        ch = impl.Child(flags=flags, env=env)
+        n_done, t_start = 0, time.time()
+        try:
+            for i in pick_:
+                if time.time() - t_start > budget_s:
+                    break
+                o2 = ch.run(lines[i])
+                n_done += 1
+                if o2 == "child-died":
+                    break
+                differs = o2 != impl_out[i]
+                if differs and impl.run_plain(lines[i]) != impl_out[i]:
+                    continue            # depends on state left behind by unsampled lines: not comparable
+                if differs:
+                    mode_diffs.append((full_lines[i], impl_out[i], o2))
+                if not o2.startswith("ok"):
+                    continue            # a refusal in the other context hands out nothing wrong
+                try:
+                    with impl.redirect(ch.run):
+                        msg = mod.oracle(full_lines[i], o2)
+                except Exception:
+                    msg = None
+                if msg and not mod.known_match(full_lines[i], o2, msg, known):
+                    # the same judgement in THIS interpreter must be clean (else it is reported by the main run already)
+                    try:
+                        base = mod.oracle(full_lines[i], impl_out[i])
+                    except Exception:
+                        base = None
+                    if not base:
+                        failures.append((full_lines[i], "%s: %s" % (label, msg)))
+                        if len(failures) > 20:
+                            break
+        finally:
+            ch.close()
+        return n_done
     try:
         idx_err = [i for i, o in enumerate(impl_out) if not o.startswith("ok")]
         idx_ok = [i for i, o in enumerate(impl_out) if o.startswith("ok")]
         rng2 = random.Random(seed + 77)
-        n_err, n_ok = (150, 60) if tier == "quick" else (1500, 600)
+        n_err, n_ok = (150, 80) if tier == "quick" else (1500, 800)
         pick = rng2.sample(idx_err, min(n_err, len(idx_err))) + rng2.sample(idx_ok, min(n_ok, len(idx_ok)))
         pick = [i for i in pick if len(lines[i]) < 20000]
         pick = sorted(set(within_budget(pick, 6.0 if tier == "quick" else 300.0)))
         if pick:
-            code = ("import sys; sys.path.insert(0, %r)\nimport impl\n"
-                    "for l in sys.stdin.read().split('\\n'):\n"
-                    "    if l: print(impl.run(l), flush=True)\n" % HERE)
             t_m = time.time()
-            pr = subprocess.run([sys.executable, "-O", "-c", code], input="\n".join(lines[i] for i in pick) + "\n",
-                                stdout=subprocess.PIPE, stderr=subprocess.PIPE, text=True,
-                                timeout=600 if tier == "quick" else 3000, cwd=HERE)
-            outs_o = pr.stdout.split("\n")[:len(pick)]
-            if len(outs_o) == len(pick) and pr.returncode == 0:
-                # the child runs only the sampled lines, so state left behind by unsampled lines is missing there:
-                # a difference counts only if the line, re-run alone in THIS interpreter, still gives the in-process answer
-                for i, o2 in zip(pick, outs_o):
-                    if o2 != impl_out[i] and impl.run(lines[i]) == impl_out[i]:
-                        mode_diffs.append((full_lines[i], impl_out[i], o2))
-            info["optimized_interpreter_cases"] = len(pick)
+            info["optimized_interpreter_cases"] = explore_child(["-O"], None, "under `python -O` (assertions stripped)",
+                                                                pick, 14.0 if tier == "quick" else 600.0)
             info["optimized_interpreter_s"] = round(time.time() - t_m, 1)
-    except subprocess.TimeoutExpired:
-        info["optimized_interpreter_cases"] = "timeout (not a violation)"
-    for l, o1, o2 in mode_diffs[:20]:
-        if not o2.startswith("ok"):
-            continue                # a refusal in the other interpreter mode hands out nothing wrong
-        try:
-            msg = mod.oracle(l, o2)
-        except Exception:
-            msg = None
-        if msg and not mod.known_match(l, o2, msg, known):
-            failures.append((l, "under `python -O` (assertions stripped): " + msg))
+        # environment variables the source itself reads (os.environ / os.getenv with a literal name): each is set to
+        # values taken from the string literals around it and to common switches, and the sample is repeated
+        evs = source_env_vars()
+        info["environment_variables_in_source"] = sorted(evs)
+        n_env = 0
+        for name, values in sorted(evs.items()):
+            for val in values[:6]:
+                n_env += explore_child([], {name: val}, "with the environment variable %s=%r set" % (name, val),
+                                       pick[:120], 8.0 if tier == "quick" else 120.0)
+        info["environment_variable_cases"] = n_env
+    except Exception as e:      # noqa
+        info["optimized_interpreter_cases"] = "error %r" % e
     # a mere difference between the two interpreter modes that the property's oracle does not object to is recorded,
     # not reported (the unchanged code has one: from_wif checks the compression flag byte with an `assert`)
     info["optimized_interpreter_differences"] = len(mode_diffs)
@@ -635,9 +703,10 @@ def decide(pid, tier, seed, replay, t0):
         for i in pick:
             o2 = impl.run_thread(lines[i])
             n_th += 1
-            if o2 != impl_out[i] and o2.startswith("ok") and impl.run(lines[i]) == impl_out[i]:
+            if o2 != impl_out[i] and o2.startswith("ok") and impl.run_plain(lines[i]) == impl_out[i]:
                 try:
-                    msg = mod.oracle(full_lines[i], o2)
+                    with impl.redirect(impl.run_thread):
+                        msg = mod.oracle(full_lines[i], o2)
                 except Exception:
                     msg = None
                 if msg and not mod.known_match(full_lines[i], o2, msg, known):
@@ -693,6 +762,8 @@ def decide(pid, tier, seed, replay, t0):
         "worker_thread_cases": info.get("worker_thread_cases", 0),
         "worker_thread_differences": info.get("worker_thread_differences", 0),
         "optimized_interpreter_differences": info.get("optimized_interpreter_differences", 0),
+        "environment_variables_in_source": info.get("environment_variables_in_source", []),
+        "environment_variable_cases": info.get("environment_variable_cases", 0),
         "alternative_form_differences": info.get("alternative_form_differences", 0),
     }
     coverage.update(extra_info)
